@@ -354,6 +354,16 @@ theorem allocPos_free {m : AppMem} {v : Int} {i : Nat} (h : allocPos m v = some 
           · injection hj with hj; omega
           · cases hj
 
+theorem allocPos_nonneg {m : AppMem} {v : Int} {i : Nat} (h : allocPos m v = some i) (hv : 0 ≤ v) :
+    i = v.toNat := by
+  by_cases h1 : v ≥ m.unit.length
+  · simp [allocPos, h1] at h
+  · have h2 : v < m.unit.length := by omega
+    simp only [allocPos, h1, if_false, pyIdx, hv, if_true, h2] at h
+    split at h
+    · cases h
+    · injection h with h; exact h.symm
+
 /-- history: every keep consumption found its unit-module position free; measure consumptions map
 no qubit -/
 def LogFree (s : State) : Prop :=
@@ -438,5 +448,295 @@ theorem handlePending_idle {okf : Nat} {s s' : State} (h : handlePending okf s =
     ∀ x ∈ s'.pending, tryHandle okf s' x = .no := by
   have := handlePendingFuel_idle (s.pending.length + 1) s s' (by omega) h
   exact scan_idle _ _ this
+
+end NQ.Epr
+
+namespace NQ.Epr
+
+/-! ### unit modules are never overwritten -/
+
+theorem mapped_setApp (s : State) (a : Nat) (m' : AppMem) (app i : Nat) (apps' : List (Nat × AppMem))
+    (h : apps' = setApp s.apps a m') (s' : State) (hs : s'.apps = apps') :
+    mapped s' app i = if app = a then m'.unit.getD i none else mapped s app i := by
+  unfold mapped
+  rw [hs, h]
+  by_cases ha : app = a
+  · subst ha; simp [getApp_setApp_same]
+  · simp [getApp_setApp_ne _ _ _ _ ha, ha]
+
+/-- allocated entries stay as they are -/
+def Keeps (s s' : State) : Prop := ∀ app i p, mapped s app i = some p → mapped s' app i = some p
+
+/-- an allocated entry is never replaced by another qubit: it stays, or it is freed -/
+def NoOverwrite (s s' : State) : Prop :=
+  ∀ app i p, mapped s app i = some p → mapped s' app i = some p ∨ mapped s' app i = none
+
+theorem Keeps.noOverwrite {s s' : State} (h : Keeps s s') : NoOverwrite s s' :=
+  fun app i p hp => Or.inl (h app i p hp)
+
+theorem keeps_of_apps_eq {s s' : State} (h : s'.apps = s.apps) : Keeps s s' := by
+  intro app i p hp; unfold mapped at *; rw [h]; exact hp
+
+theorem getD_set_ne {l : List (Option Int)} {i j : Nat} {v : Option Int} (h : j ≠ i) :
+    (l.set i v).getD j none = l.getD j none := by
+  simp [List.getD_eq_getElem?_getD, List.getElem?_set, Ne.symm h]
+
+theorem getD_set_self {l : List (Option Int)} {i : Nat} {v : Option Int} (h : i < l.length) :
+    (l.set i v).getD i none = v := by
+  simp [List.getD_eq_getElem?_getD, List.getElem?_set, h]
+
+theorem Consumed.keeps {okf : Nat} {s s' : State} {r : Resp} (h : Consumed okf s r s') : Keeps s s' := by
+  obtain ⟨hd, rest, app, m, m1, used1, vq, prev, arr, arr', _, _, _, happ, hM, hK, hO, _, _, hs⟩ := h.ex
+  intro a i p hp
+  have hm := mapped_setApp s app { m1 with arrays := setArr m1.arrays hd.resAddr arr' } a i _ rfl s'
+    (by subst hs; rfl)
+  rw [hm]
+  by_cases ha : a = app
+  · subst ha
+    simp only [if_true]
+    have hp' : m.unit.getD i none = some p := by
+      unfold mapped at hp; rw [happ] at hp; exact hp
+    cases hty : r.ty with
+    | other => exact absurd hty hO
+    | M => rw [(hM hty).1]; exact hp'
+    | K =>
+      obtain ⟨qa, qarr, v, j, _, _, _, _, hj, hm1, _, _, _⟩ := hK hty
+      rw [hm1]
+      simp only
+      have hfree := (allocPos_free hj).1
+      have : i ≠ j := by
+        intro hij; subst hij; rw [hfree] at hp'; cases hp'
+      rw [getD_set_ne this]; exact hp'
+  · simp only [ha, if_false]; exact hp
+
+theorem Micro.keeps {okf : Nat} {s s' : State} (h : Micro okf s s') : Keeps s s' := by
+  obtain ⟨pre, r, rest, s1, _, hc, _, hs⟩ := h
+  intro a i p hp
+  have := hc.keeps a i p hp
+  subst hs
+  exact this
+
+theorem Micros.keeps {okf : Nat} {s s' : State} (h : Micros okf s s') : Keeps s s' := by
+  induction h with
+  | refl => exact fun _ _ _ hp => hp
+  | cons hm _ ih => exact fun a i p hp => ih a i p (hm.keeps a i p hp)
+
+theorem step_noOverwrite {okf : Nat} {s s' : State} {a : Action} (h : step okf s a = some s') :
+    NoOverwrite s s' := by
+  cases a with
+  | initApp app n =>
+    simp [step] at h; subst h
+    intro a i p hp
+    rw [mapped_setApp s app _ a i _ rfl _ rfl]
+    by_cases ha : a = app
+    · right; simp [ha, List.getD_eq_getElem?_getD, List.getElem?_replicate]
+      split <;> rfl
+    · left; simp [ha, hp]
+  | startSub sub app => simp [step] at h; subst h; exact (keeps_of_apps_eq rfl).noOverwrite
+  | endSub sub => simp [step] at h; subst h; exact (keeps_of_apps_eq rfl).noOverwrite
+  | nop => simp [step] at h; subst h; exact (keeps_of_apps_eq rfl).noOverwrite
+  | array sub addr len =>
+    simp only [step] at h
+    obtain ⟨app, m, _, happ, hf⟩ := withApp_some h
+    injection hf with hf; subst hf
+    intro a i p hp
+    rw [mapped_setApp s app _ a i _ rfl _ rfl]
+    left
+    by_cases ha : a = app
+    · subst ha; unfold mapped at hp; rw [happ] at hp; simpa using hp
+    · simp [ha, hp]
+  | store sub addr idx val =>
+    simp only [step] at h
+    obtain ⟨app, m, _, happ, hf⟩ := withApp_some h
+    split at hf
+    · cases hf
+    · split at hf
+      · injection hf with hf; subst hf
+        intro a i p hp
+        rw [mapped_setApp s app _ a i _ rfl _ rfl]
+        left
+        by_cases ha : a = app
+        · subst ha; unfold mapped at hp; rw [happ] at hp; simpa using hp
+        · simp [ha, hp]
+      · cases hf
+  | qalloc sub v =>
+    simp only [step] at h
+    obtain ⟨app, m, _, happ, hf⟩ := withApp_some h
+    split at hf
+    · cases hf
+    · rename_i j hj
+      split at hf
+      · cases hf
+      · injection hf with hf; subst hf
+        intro a i p hp
+        rw [mapped_setApp s app _ a i _ rfl _ rfl]
+        left
+        by_cases ha : a = app
+        · subst ha
+          unfold mapped at hp; rw [happ] at hp; simp only at hp
+          have hfree := (allocPos_free hj).1
+          have : i ≠ j := by intro hij; subst hij; rw [hfree] at hp; cases hp
+          simp only [if_true]
+          rw [getD_set_ne this]; exact hp
+        · simp [ha, hp]
+  | qfree sub v =>
+    simp only [step] at h
+    obtain ⟨app, m, _, happ, hf⟩ := withApp_some h
+    split at hf
+    · cases hf
+    · rename_i j hj
+      split at hf
+      · cases hf
+      · injection hf with hf; subst hf
+        intro a i p hp
+        rw [mapped_setApp s app _ a i _ rfl _ rfl]
+        by_cases ha : a = app
+        · subst ha
+          unfold mapped at hp; rw [happ] at hp; simp only at hp
+          simp only [if_true]
+          by_cases hij : i = j
+          · subst hij
+            right
+            simp [List.getD_eq_getElem?_getD, List.getElem?_set]
+            split <;> rfl
+          · left; rw [getD_set_ne hij]; exact hp
+        · left; simp [ha, hp]
+  | create sub remote purpose isK number qAddr resAddr =>
+    simp only [step] at h
+    obtain ⟨app, m, _, _, hf⟩ := withApp_some h
+    split at hf
+    · simp only [Option.some.injEq] at hf; subst hf; exact (keeps_of_apps_eq rfl).noOverwrite
+    · cases hf
+  | recv sub remote purpose qAddr resAddr =>
+    simp only [step] at h
+    obtain ⟨app, m, _, _, hf⟩ := withApp_some h
+    split at hf
+    · cases hf
+    · injection hf with hf; subst hf; exact (keeps_of_apps_eq rfl).noOverwrite
+  | deliver ty remote purpose dir phys fields =>
+    simp only [step, handlePending] at h
+    have hk := (handlePendingFuel_micros _ _ _ h).keeps
+    exact fun a i p hp => Or.inl (hk a i p hp)
+  | poll =>
+    simp only [step, handlePending] at h
+    exact (handlePendingFuel_micros _ _ _ h).keeps.noOverwrite
+  | wait sub kind addr lo hi =>
+    simp only [step] at h
+    split at h
+    · cases h
+    · injection h with h; subst h; exact (keeps_of_apps_eq rfl).noOverwrite
+
+/-! ### (iii) what one consumption writes -/
+
+theorem Consumed.effect {okf : Nat} {s s' : State} {r : Resp} (h : Consumed okf s r s') :
+    ∃ (hd : Req) (rest : List Req) (app : Nat) (m m' : AppMem) (arr' : Arr),
+      getQ s.queues (keyOf s.nodeId r) = hd :: rest ∧
+      getSub s.subs hd.sub = some app ∧ getApp s.apps app = some m ∧ getApp s'.apps app = some m' ∧
+      getArr m'.arrays hd.resAddr = some arr' ∧
+      (∀ j, j < r.fields.length →
+        arr'[(hd.tot - hd.left).toNat * okf + j]? = (r.fields[j]?).map some) ∧
+      (r.ty = .M → m'.unit = m.unit) ∧
+      (r.ty = .K → ∃ qa qarr v i, hd.qAddr = some qa ∧ getArr m.arrays qa = some qarr ∧
+        qarr[(hd.tot - hd.left).toNat]? = some (some v) ∧ (0 ≤ v → i = v.toNat) ∧
+        m.unit.getD i none = none ∧ m'.unit.getD i none = some r.phys ∧
+        ∀ j, j ≠ i → m'.unit.getD j none = m.unit.getD j none) := by
+  obtain ⟨hd, rest, app, m, m1, used1, vq, prev, arr, arr', hq, _, hsub, happ, hM, hK, hO, harr, hst, hs⟩ := h.ex
+  refine ⟨hd, rest, app, m, { m1 with arrays := setArr m1.arrays hd.resAddr arr' }, arr', hq, hsub, happ,
+    by subst hs; exact getApp_setApp_same _ _ _, getArr_setArr_same _ _ _, (storeSlice_spec hst).2.1, ?_, ?_⟩
+  · intro hty; rw [(hM hty).1]
+  · intro hty
+    obtain ⟨qa, qarr, v, i, h1, h2, h3, _, hi, hm1, _, _, _⟩ := hK hty
+    obtain ⟨hfree, hlt⟩ := allocPos_free hi
+    refine ⟨qa, qarr, v, i, h1, h2, h3, ?_, hfree, ?_, ?_⟩
+    · exact allocPos_nonneg hi
+    · rw [hm1]; exact getD_set_self hlt
+    · intro j hj; rw [hm1]; exact getD_set_ne hj
+
+/-! ### (vi) wait instructions -/
+
+theorem waitOk_all {s : State} {sub : Nat} {addr : Int} {lo hi : Nat}
+    (h : waitOk s sub .all addr lo hi = some true) :
+    ∃ app m arr, getSub s.subs sub = some app ∧ getApp s.apps app = some m ∧
+      getArr m.arrays addr = some arr ∧
+      ∀ i, lo ≤ i → i < hi → i < arr.length → ∃ v, arr[i]? = some (some v) := by
+  unfold waitOk at h
+  split at h
+  · cases h
+  · rename_i app hsub
+    split at h
+    · cases h
+    · rename_i m happ
+      cases harr : getArr m.arrays addr with
+      | none => rw [harr] at h; simp at h
+      | some arr =>
+        rw [harr] at h
+        simp only [Option.some.injEq] at h
+        refine ⟨app, m, arr, hsub, happ, harr, ?_⟩
+        intro i h1 h2 h3
+        rw [List.all_eq_true] at h
+        have hmem : arr[i] ∈ (arr.drop lo).take (hi - lo) := by
+          rw [List.mem_iff_getElem?]
+          refine ⟨i - lo, ?_⟩
+          rw [List.getElem?_take, if_pos (by omega), List.getElem?_drop]
+          have : lo + (i - lo) = i := by omega
+          rw [this]; exact List.getElem?_eq_getElem h3
+        have := h _ hmem
+        cases hv : arr[i] with
+        | none => rw [hv] at this; cases this
+        | some v => exact ⟨v, by rw [List.getElem?_eq_getElem h3, hv]⟩
+
+theorem waitOk_any {s : State} {sub : Nat} {addr : Int} {lo hi : Nat}
+    (h : waitOk s sub .any addr lo hi = some true) :
+    ∃ app m arr, getSub s.subs sub = some app ∧ getApp s.apps app = some m ∧
+      getArr m.arrays addr = some arr ∧
+      ∃ i v, lo ≤ i ∧ i < hi ∧ arr[i]? = some (some v) := by
+  unfold waitOk at h
+  split at h
+  · cases h
+  · rename_i app hsub
+    split at h
+    · cases h
+    · rename_i m happ
+      cases harr : getArr m.arrays addr with
+      | none => rw [harr] at h; simp at h
+      | some arr =>
+        rw [harr] at h
+        simp only [Option.some.injEq] at h
+        refine ⟨app, m, arr, hsub, happ, harr, ?_⟩
+        rw [List.any_eq_true] at h
+        obtain ⟨x, hx, hsome⟩ := h
+        rw [List.mem_iff_getElem?] at hx
+        obtain ⟨j, hj⟩ := hx
+        rw [List.getElem?_take] at hj
+        split at hj
+        · rw [List.getElem?_drop] at hj
+          cases hxv : x with
+          | none => rw [hxv] at hsome; cases hsome
+          | some v => exact ⟨lo + j, v, by omega, by omega, by rw [hj, hxv]⟩
+        · cases hj
+
+theorem waitOk_single {s : State} {sub : Nat} {addr : Int} {lo hi : Nat}
+    (h : waitOk s sub .single addr lo hi = some true) :
+    ∃ app m arr v, getSub s.subs sub = some app ∧ getApp s.apps app = some m ∧
+      getArr m.arrays addr = some arr ∧ arr[lo]? = some (some v) := by
+  unfold waitOk at h
+  split at h
+  · cases h
+  · rename_i app hsub
+    split at h
+    · cases h
+    · rename_i m happ
+      cases harr : getArr m.arrays addr with
+      | none => rw [harr] at h; simp at h
+      | some arr =>
+        rw [harr] at h
+        simp only at h
+        split at h
+        · cases h
+        · rename_i x hx
+          injection h with h
+          cases hxv : x with
+          | none => rw [hxv] at h; cases h
+          | some v => exact ⟨app, m, arr, v, hsub, happ, harr, by rw [hx, hxv]⟩
 
 end NQ.Epr
